@@ -236,13 +236,22 @@ def _worker(prop_id, tier, seed, k, K, repo, conn, replay_case=None):
                     stats.samples.append(_jsonable(prop.sample(case)))
             if v.violation is None:
                 return
-            e = _match_known(prop, entries, case, v.violation)
-            if e is not None:
-                stats.known[e["key"]] = stats.known.get(e["key"], 0) + 1
-                stats.known_examples.setdefault(e["key"], v.violation.get("what", ""))
+
+            def first_unlisted(viol):
+                """A case may fail in several ways (violation["also"] = further violation dicts): a listed finding must not hide an
+                unlisted one in the same case. Counts the listed ones, returns the first unlisted one (or None)."""
+                for one in [viol] + list(viol.get("also") or []):
+                    e = _match_known(prop, entries, case, one)
+                    if e is None:
+                        return one
+                    stats.known[e["key"]] = stats.known.get(e["key"], 0) + 1
+                    stats.known_examples.setdefault(e["key"], one.get("what", ""))
+                return None
+            viol = first_unlisted(v.violation)
+            if viol is None:
                 return
             # confirm on the real binary before believing anything
-            if rt.backend == "inproc" and not v.violation.get("inproc_is_truth"):
+            if rt.backend == "inproc" and not viol.get("inproc_is_truth"):
                 try:
                     v2 = prop.evaluate(case, rt_bb)
                 except Exception:
@@ -252,13 +261,11 @@ def _worker(prop_id, tier, seed, k, K, repo, conn, replay_case=None):
                 if v2.violation is None:
                     stats.inproc_only += 1
                     return
-                e = _match_known(prop, entries, case, v2.violation)
-                if e is not None:
-                    stats.known[e["key"]] = stats.known.get(e["key"], 0) + 1
-                    stats.known_examples.setdefault(e["key"], v2.violation.get("what", ""))
+                viol = first_unlisted(v2.violation)
+                if viol is None:
                     return
-                v = v2
-            raise ViolationError(case, v.violation)
+            viol = {k_: v_ for k_, v_ in viol.items() if k_ != "also"}
+            raise ViolationError(case, viol)
 
         if replay_case is not None:
             try:
